@@ -354,7 +354,7 @@ func (f Frame) Prefixed(prefix int) Frame {
 // Swap swaps rows i and j in frame f.
 func (f Frame) Swap(i, j int) {
 	for k := range f.data {
-		f.data[k].ops.swap(i-f.off, j-f.off)
+		f.data[k].ops.swap(i+f.off, j+f.off)
 	}
 }
 
